@@ -79,6 +79,13 @@ class Loader:
             return self.shim_map[name]
         path, rel, is_pkg = self._path(name)
         if path is None:
+            d = os.path.join(self.repo, name.replace('.', '/'))
+            if os.path.isdir(d):      # namespace package (user_scripts has no __init__.py)
+                mod = types.ModuleType(name)
+                mod.__path__ = [d]
+                mod.__package__ = name
+                self.modules[name] = mod
+                return mod
             raise ImportError('no repo module %s' % name)
         # parents first
         if '.' in name:
@@ -161,5 +168,5 @@ _STDLIB_OK = {
     'argparse', 'configparser', 'abc', 'dataclasses', 'io', 'string', 'unicodedata', 'operator', 'warnings',
     'traceback', 'uuid', 'datetime', 'time', 'multiprocessing', 'subprocess', 'shutil', 'glob', 'pathlib',
     '__future__', 'types', 'numbers', 'heapq', 'bisect', 'random', 'tempfile', 'zipfile', 'struct', 'contextlib',
-    'importlib', 'os', 'pickle', 'math',
+    'importlib', 'os', 'pickle', 'math', 'unittest', 'textwrap', 'locale', 'codecs', 'statistics', 'gc',
 }
